@@ -229,6 +229,7 @@ type runner struct {
 	drv  string
 	mu   sync.Mutex
 	traces int
+	hung, skipped int
 }
 
 func caseLines(o *outcome) []string {
@@ -259,9 +260,21 @@ func (rn *runner) worker(jobs <-chan job, wg *sync.WaitGroup) {
 	}
 	defer d.Close()
 	for j := range jobs {
+		rn.mu.Lock()
+		stop := rn.hung >= maxHungCases
+		if stop {
+			rn.skipped++
+		}
+		rn.mu.Unlock()
+		if stop { // the implementation hangs in case after case: report what we have
+			continue
+		}
 		rn.one(j.c, d)
 	}
 }
+
+// maxHungCases bounds the time a broken implementation can cost (every hang waits for waitTO).
+const maxHungCases = 24
 
 func (rn *runner) one(c Case, d *lib.Drv) {
 	o := runCase(c)
@@ -326,6 +339,25 @@ func (rn *runner) one(c Case, d *lib.Drv) {
 			res.Hit(fmt.Sprintf("event:add-ok=%v", e.OK))
 		case "run.ret":
 			res.Hit(fmt.Sprintf("run-errors:%d", len(e.Errs)))
+		}
+	}
+	if len(o.Hangs) > 0 {
+		rn.mu.Lock()
+		rn.hung++
+		rn.mu.Unlock()
+	}
+	if c.Grace == "tie" {
+		if has(o.Log, "fatal", 0) {
+			res.Hit("tie-outcome:fired")
+		} else {
+			res.Hit("tie-outcome:quiet")
+		}
+	}
+	if c.CloseRace > 0 {
+		if runLost(o.Log) {
+			res.Hit("close-race-outcome:close-won")
+		} else {
+			res.Hit("close-race-outcome:run-won")
 		}
 	}
 	for _, f := range monitor(o) {
@@ -452,7 +484,10 @@ func main() {
 	close(ch)
 	wg.Wait()
 	res.Traces = rn.traces
-	res.Exhaustive = f.Tier == "thorough"
+	if rn.skipped > 0 {
+		res.Note(fmt.Sprintf("%d cases skipped after %d cases hung", rn.skipped, rn.hung))
+	}
+	res.Exhaustive = f.Tier == "thorough" && rn.skipped == 0
 	res.Note(fmt.Sprintf("cases=%d workers=%d wall=%.1fs; exhaustive core: rcm ≤%d runners × ≤%d closers (all behaviours, orders, grace policies, 7 Close placements), rm ≤%d runners; random samples over 0..4 × 0..4: %d",
 		len(jobs), workers, time.Since(start).Seconds(), coreR, coreC, rmR, nRandom))
 	res.Write(f.Out)
